@@ -139,8 +139,8 @@ Proof.
   assert (K1 : keeps u t s s1) by (apply keeps_same_actors; unfold provide in Ep; inversion Ep; subst; reflexivity).
   set (s2 := set_actors s1 (actors s1 ++ [new_actor t' self r inst])).
   assert (K2 : keeps u t s s2) by (eapply keeps_trans; [exact K1|apply keeps_append]).
-  destruct (lookup t' (registry s2)).
-  - intros H; inversion H; subst. exact K2.
+  change (registry s2) with (registry s1) in *. destruct (lookup t' (registry s1)).
+  - intros H; inversion H; subst. eapply keeps_trans; [exact K1|apply keeps_append].
   - intros H. eapply keeps_trans; [|eapply keeps_stop; exact H]. eapply keeps_trans; [exact K2|].
     eapply keeps_trans; [|apply keeps_deliver_sys; discriminate]. eapply keeps_trans; [|apply keeps_upd_actor; ks].
     apply keeps_same_actors. reflexivity.
